@@ -100,11 +100,11 @@ type ptsTo struct {
 	nnodes  int
 	pts     []bset
 	objs    []*ptObject
-	content []int // object -> contents node
-	copyE   [][2]int   // dst ⊇ src
-	fcopyE  [][2]int   // dst ⊇ non-container objects of src (value known to be neither map[string]interface{} nor []interface{})
-	loadE   [][2]int   // dst ⊇ C(pts(src))
-	storeE  [][2]int   // C(pts(dst)) ⊇ src
+	content []int    // object -> contents node
+	copyE   [][2]int // dst ⊇ src
+	fcopyE  [][2]int // dst ⊇ non-container objects of src (value known to be neither map[string]interface{} nor []interface{})
+	loadE   [][2]int // dst ⊇ C(pts(src))
+	storeE  [][2]int // C(pts(dst)) ⊇ src
 	writes  []ptWrite
 	globObj map[*ssa.Global]objID
 	extObj  map[extKey]objID
